@@ -7,13 +7,14 @@
                of different widths; nothing repairs it afterwards).  Conservative: never compared
                with the implementation, the oracle measures the real rows.
 
-   Two deviations from the code, made explicit.  They mark situations in which the property is
-   already lost (or meaningless) below the widget under consideration, and the harness flags exactly
-   the same situations on the implementation with a spy around every render()/rows()/pack():
+   One deviation from the code, made explicit.  It marks a situation in which the property is
+   meaningless below the widget under consideration, and the harness flags exactly the same
+   situation on the implementation with a spy around every render()/rows()/pack():
      EStarved - a widget is asked for a size with a component <= 0 (its container had no room);
-                what a real leaf does at such a size is not part of its contract;
-     ECut     - a widget returns a canvas whose cursor lies outside it (canvas.py trims rows and
-                columns but only translates the cursor coordinates).
+                what a real leaf does at such a size is not part of its contract.
+   (ECut is only the wire code of a LEAF that reports a canvas with the cursor outside it: such a
+   leaf breaks its own contract and no prediction is made for the tree.  Since aa8a06a the canvas
+   trimming operations drop a cursor that they cut away, so no container produces it.)
 
    Leaves are tables of what the real leaf reports (rows / pack / render dims per width and focus),
    measured by the harness; their contract is a hypothesis of the theorems (leaf_ok). *)
@@ -81,14 +82,8 @@ Definition default_pack (sz : sizing) (rows : Z -> bool -> res Z) (s : size) (f 
    validate_size after *)
 Definition wrap_rows (raw : Z -> bool -> res Z) (c : Z) (f : bool) : res Z :=
   if c <=? 0 then Err EStarved else raw c f.
-Definition cursor_outside (cv : canv) : bool :=
-  match cur cv with
-  | Some (x, y) => negb ((0 <=? x) && (x <? cc cv) && (0 <=? y) && (y <? cr cv))
-  | None => false
-  end.
-Definition check_cut (cv : canv) : res canv := if cursor_outside cv then Err ECut else Ok cv.
 Definition wrap_render (raw : size -> bool -> res canv) (sz : size) (f : bool) : res canv :=
-  if degenerate sz then Err EStarved else let* cv := raw sz f in let* cv1 := validate sz cv in check_cut cv1.
+  if degenerate sz then Err EStarved else let* cv := raw sz f in validate sz cv.
 
 Definition mk_node (sz : sizing) (rows : Z -> bool -> res Z)
            (pack_fixed : bool -> res (Z * Z)) (render : size -> bool -> res canv) : sem :=
@@ -104,12 +99,20 @@ Definition shift_cur (c : option (Z * Z)) (dx dy : Z) : option (Z * Z) :=
 
 Definition blank (c r : Z) : canv := mkC c r None true.   (* SolidCanvas *)
 
+(* CompositeCanvas._drop_cursor_outside *)
+Definition drop_outside (c r : Z) (cu : option (Z * Z)) : option (Z * Z) :=
+  match cu with
+  | Some (x, y) => if (0 <=? x) && (x <? c) && (0 <=? y) && (y <? r) then cu else None
+  | None => None
+  end.
+
 (* CompositeCanvas.pad_trim_left_right; shards_trim_sides raises ValueError when cols <= 0 *)
 Definition pad_trim_lr (cv : canv) (left right : Z) : res canv :=
   if (left <? 0) || (right <? 0) then
     let cols := cc cv - Z.max 0 (- left) - Z.max 0 (- right) in
     if cols <=? 0 then Err EValue
-    else Ok (mkC (cols + Z.max 0 left + Z.max 0 right) (cr cv) (shift_cur (cur cv) left 0) (rect cv))
+    else let w := cols + Z.max 0 left + Z.max 0 right in
+         Ok (mkC w (cr cv) (drop_outside w (cr cv) (shift_cur (cur cv) left 0)) (rect cv))
   else Ok (mkC (cc cv + left + right) (cr cv) (shift_cur (cur cv) left 0) (rect cv)).
 
 (* CompositeCanvas.trim(top, count) *)
@@ -117,11 +120,12 @@ Definition trim (cv : canv) (top : Z) (count : option Z) : res canv :=
   if top <? 0 then Err EValue
   else if cr cv <=? top then Err EValue
   else match count with
-       | None => Ok (mkC (cc cv) (cr cv - top) (shift_cur (cur cv) 0 (- top)) (rect cv))
+       | None => Ok (mkC (cc cv) (cr cv - top) (drop_outside (cc cv) (cr cv - top) (shift_cur (cur cv) 0 (- top))) (rect cv))
        | Some n =>
-           if n =? 0 then Ok (mkC 0 0 (shift_cur (cur cv) 0 (- top)) (rect cv))
+           if n =? 0 then Ok (mkC 0 0 None (rect cv))
            else if n <? 0 then Err EValue
-           else Ok (mkC (cc cv) (Z.min n (cr cv - top)) (shift_cur (cur cv) 0 (- top)) (rect cv))
+           else let r := Z.min n (cr cv - top) in
+                Ok (mkC (cc cv) r (drop_outside (cc cv) r (shift_cur (cur cv) 0 (- top))) (rect cv))
        end.
 
 (* CompositeCanvas.pad_trim_top_bottom *)
@@ -482,7 +486,10 @@ Fixpoint pile_box_pass1 (l : list pitem) (maxcol : Z) (f : bool) (fp i : Z) (rem
   | it :: r =>
       match pi_kind it with
       | KPack =>
-          let* rows := m_rows (pi_sem it) maxcol (item_focus f fp i) in
+          let cs := m_sizing (pi_sem it) in
+          let* rows := (if negb (s_flow cs) && s_fixed cs
+                        then (let* p := m_pack (pi_sem it) SFixed (item_focus f fp i) in Ok (snd p))
+                        else m_rows (pi_sem it) maxcol (item_focus f fp i)) in
           let* t := pile_box_pass1 r maxcol f fp (i + 1) (remaining - rows) wtotal in
           let '(hs, rem, wt) := t in Ok (Some rows :: hs, rem, wt)
       | KGiven =>
@@ -1135,7 +1142,7 @@ Definition overlay_cpf (t : sem) (p : ovp) (maxcol maxrow : Z) (f : bool) : res 
   | None =>
       match ov_ht p with
       | HPack =>
-          let* height := m_rows t maxcol f in
+          let* height := m_rows t (maxcol - lft - rgt) f in
           let '(top, bottom) := ctbf maxrow (ov_valign p) (HGiven height) height None (ov_top p) (ov_bottom p) in
           Ok (lft, rgt, top, if maxrow <? height then maxrow - height else bottom)
       | ht =>
@@ -1162,7 +1169,7 @@ Definition overlay_render (t b : sem) (p : ovp) (self_pack : size -> bool -> res
   let* top_c := m_render t tsize f in
   let* top1 := (if (lft <? 0) || (rgt <? 0) then pad_trim_lr top_c (Z.min 0 lft) (Z.min 0 rgt) else Ok top_c) in
   let* top2 := (if (top <? 0) || (bottom <? 0) then pad_trim_tb top1 (Z.min 0 top) (Z.min 0 bottom) else Ok top1) in
-  canvas_overlay top2 bottom_c lft top.
+  canvas_overlay top2 bottom_c (Z.max lft 0) top.
 
 Definition overlay_sem (t b : sem) (p : ovp) : sem :=
   let sz := overlay_sizing (m_sizing t) p in
